@@ -1077,6 +1077,17 @@ class Interp:
             if h is not None:
                 return h
             return False
+        if isinstance(a, SetVal) and isinstance(b, SetVal):
+            # set equality: mutual inclusion
+            cs = []
+            for x in a.items:
+                cs.append(self.any_equal(b.items, x))
+            for y in b.items:
+                cs.append(self.any_equal(a.items, y))
+            if any(c is False for c in cs):
+                return False
+            cs = [c for c in cs if c is not True]
+            return z3.And(cs) if cs else True
         if isinstance(a, (tuple, list)) and isinstance(b, (tuple, list)):
             if type(a) is not type(b) or len(a) != len(b):
                 return False
